@@ -60,7 +60,7 @@ func DecodeElngSR(hdr BoxHeader, startPos uint64, sr bits.SliceReader) (Box, err
 	if isLegacy {
 		b.missingFullBox = true
 		b.Language = string(sr.ReadZeroTerminatedString(plLen))
-		return &b, nil
+		return &b, sr.AccError() // a tag without zero termination is an error, as in the full box form
 	}
 	versionAndFlags := sr.ReadUint32()
 	if versionAndFlags != 0 {
